@@ -190,6 +190,11 @@ class NDArr:
             return elem_ite(c, newv, old(b), kind)
         self.buf.fn = new_fn
 
+    def frozen(self):
+        """Read-only snapshot of the current content (numpy evaluates eagerly: an array derived from this one must not
+        see later writes into its buffer).  O(1): closures of earlier states are never modified, only replaced."""
+        return NDArr(Buf(self.buf.fn, self.buf.kind, self.buf.ndim), self.shape, self.axes)
+
     def copy(self):
         me = self
         snap = self.buf.fn
@@ -341,10 +346,11 @@ class Numpy:
         np = self.np
         return {"float": np.dtype("float64"), "int": np.dtype("int64"), "bool": np.dtype("bool"), "object": np.dtype("O")}[kind]
 
-    def coerce(self, I, v):
-        """array-like -> NDArr (or None if not array-like)."""
+    def coerce(self, I, v, freeze=True):
+        """array-like -> NDArr (or None if not array-like).  By default a snapshot is returned, because the callers
+        define derived arrays lazily; view-producing operations ask for the live array (freeze=False)."""
         if isinstance(v, NDArr):
-            return v
+            return v.frozen() if freeze else v
         np = self.np
         if isinstance(v, np.ndarray):
             kind = self.kind_of_dtype(v.dtype)
@@ -623,7 +629,7 @@ class Numpy:
         kind = self.kind_of_dtype(dtype)
         if kind == a.kind:
             return a.copy()
-        src = a
+        src = a.frozen()
 
         def conv(x):
             if kind == "float":
@@ -685,7 +691,7 @@ class Numpy:
             return NDArr(a.buf, a.shape, a.axes)
         # general row-major reshape: modelled as a copy (numpy may return a view; aliasing through such
         # reshapes is not relied upon by the contracts)
-        src = a
+        src = a.frozen()
         sshape = [zint(d) for d in a.shape]
         dshape = [zint(d) for d in shp]
 
@@ -809,6 +815,7 @@ class Numpy:
                 basic.append(p)
             d += 1
         view = self.basic_index(I, a, basic, node)
+        view = view.frozen() if isinstance(view, NDArr) else view
         # position of the fancy axis inside `view`
         vpos = 0
         for k, p in enumerate(parts):
@@ -889,6 +896,7 @@ class Numpy:
         dims = [zint(d) for d in a.shape]
         for s, n in zip(seqs, dims):
             self.check_seq_bounds(I, s, n, node)
+        a = a.frozen()
 
         def fn(*vidx):
             full = []
@@ -936,7 +944,7 @@ class Numpy:
     def setitem(self, I, a, idx, value, node):
         self.note(I)
         if isinstance(idx, NDArr) and idx.kind == "bool":
-            mask = idx
+            mask = idx.frozen()
             if len(mask.shape) != a.ndim:
                 raise Unsupported("boolean mask of different rank")
             if isinstance(value, (int, float, SV)) or value is None:
@@ -1314,7 +1322,7 @@ class Numpy:
         return NDArr.fresh(fn, shape, arr.kind)
 
     def np_flip(self, I, a, k, n):
-        arr = self.coerce(I, a[0])
+        arr = self.coerce(I, a[0], freeze=False)
         axis = k.get("axis", a[1] if len(a) > 1 else None)
         axes = range(arr.ndim) if axis is None else [axis]
         out = arr
@@ -1324,17 +1332,17 @@ class Numpy:
         return out
 
     def np_transpose(self, I, a, k, n):
-        return I.getattr(self.coerce(I, a[0]), "T", n)
+        return I.getattr(self.coerce(I, a[0], freeze=False), "T", n)
 
     def np_squeeze(self, I, a, k, n):
-        arr = self.coerce(I, a[0])
+        arr = self.coerce(I, a[0], freeze=False)
         parts = []
         for d in arr.shape:
             parts.append(0 if (isinstance(d, int) and d == 1) else LibObj("slice", start=None, stop=None, step=None))
         return self.basic_index(I, arr, parts, n)
 
     def np_atleast_2d(self, I, a, k, n):
-        arr = self.coerce(I, a[0])
+        arr = self.coerce(I, a[0], freeze=False)
         if arr.ndim >= 2:
             return arr
         return self.reshape(I, arr, [1, -1], n)
